@@ -16,6 +16,7 @@ def check(chk, thorough=False):
     chk.run('C14.c', 'R-CLAMP', 'send segment size never exceeds the peer segment MRU, also while adapting (= C04.e)', lambda ob: c04e(tree, ob), floor=2)
     chk.run('C14.e', 'R-TRUTH', 'the timers run on the configured values: the configuration loader hands every setting on as read, an idle time is derived only when none was given (is None, not falsy)', lambda ob: __import__('sa.props.common', fromlist=['config_verbatim']).config_verbatim(tree, ob, 'tcpcl/config.py'), floor=2)
     chk.run('C14.f', 'R-ITER', 'closing completes: no loop of the session code changes the size of the container it iterates (a pop inside the report loop of close() raises before the connection is closed)', lambda ob: __import__('sa.props.common', fromlist=['iter_mutation']).iter_mutation(tree, ob, ['tcpcl/session.py', 'tcpcl/agent.py']), floor=1)
+    chk.run('C14.g', 'R-TRUTH', 'the keepalive interval (and every other number) this side announces is the one it negotiates with: the integer fields of the TCPCL messages encode their value or fail, they do not fold it into the field width', lambda ob: __import__('sa.props.common', fromlist=['encoders_do_not_mask']).encoders_do_not_mask(tree, ob, ['tcpcl/formats.py', 'tcpcl/messages.py', 'tcpcl/contact.py']) or c14g_floor(tree, ob), floor=1)
     chk.run('C14.d', 'R-PAIR', 'every send restarts both timers, every receive restarts the idle timer; timeouts send KEEPALIVE / start idle termination; close stops both', lambda ob: c14d(tree, ob), floor=8)
     chk.run('C14.e', 'R-ESCAPE', 'an endpoint already terminating whose idle timer fires closes instead of raising (= C09.e)', lambda ob: c09e(tree, ob, user_entry=False), floor=3)
 
@@ -246,3 +247,10 @@ def c14d(tree, ob):
             ob.site(SESS, calls[0], 'session start arms {} after negotiating'.format(meth))
         else:
             ob.violate(SESS, fv.qual, meth, 'timer is not (re)armed with the negotiated time when the session starts', fv.func)
+
+
+def c14g_floor(tree, ob):
+    """ the width of the keepalive field is that of a plain struct field: UInt16Field brings no encoder of its own """
+    cls = tree.klass('tcpcl/formats.py', 'UInt16Field')
+    own = [m.name for m in cls.body if isinstance(m, ast.FunctionDef) and m.name in ('i2m', 'addfield')]
+    ob.site('tcpcl/formats.py', cls, 'UInt16Field: encoder ' + ('own: ' + ', '.join(own) if own else 'inherited from scapy (struct.pack fails for a value that does not fit)'))
